@@ -80,6 +80,7 @@ class Run:
         vlib.require_model_ok(r, cfg)
         with self.lock:
             self.ctx.add_tlc(r, label)
+            self.ctx.log("tlc %s: %d generated, %d distinct, %d payloads, %.1fs" % (cfg, r.generated, r.distinct, len(r.traces), r.wall))
         return r
 
     def drive(self, variants, n, behs, timeout=1500):
